@@ -182,9 +182,21 @@ def check(P, R):
     ed = P.func(f'{MP}:BodyMarkuper._eat_data')
     ge = ed.cfg
     loops = [n for n in walk_shallow(ed.node) if isinstance(n, ast.While)]
-    R.require(loops, '_eat_data: scan loop not found')
-    lp = loops[0]
-    head = ge.nodes_for(lp.test)[0] if not isinstance(lp.test, ast.Constant) else None
+    floops = [n for n in walk_shallow(ed.node) if isinstance(n, ast.For) and isinstance(n.iter, ast.Call) and dotted(n.iter.func) == 'range'
+              and any(isinstance(x, ast.Call) and call_attr(x) == 'match_tail' for x in walk_shallow(n))]
+    if not loops and floops:
+        # `for start in range(a, b, step)`: finitely many windows, provided the step is the (positive) delimiter length
+        from . import c06 as _c06
+        er = _c06.eat_data_roles(P)
+        rg = floops[0].iter
+        okf = len(rg.args) == 3 and src(rg.args[2]) == er['tlen']
+        R.ob('C12.d', ed, floops[0], okf, text=f'delimiter search: for .. in {short(rg)} (finite)', detail='' if okf else
+             'the step of the window range is not the delimiter length')
+        loops = None
+    else:
+        R.require(loops, '_eat_data: scan loop not found')
+    lp = loops[0] if loops else floops[0]
+    head = (ge.nodes_for(lp.test)[0] if not isinstance(lp.test, ast.Constant) else None) if loops else T.loop_head(ge, lp)
     if head is None:
         # while True: the head is the first statement of the body
         first = T.entry_node_of(ge, lp.body[0])
@@ -195,8 +207,9 @@ def check(P, R):
            and x.target.id == er['start'] and isinstance(x.op, ast.Add)]
     succs = [m for (m, lab) in head.succ if lab != 'exc']
     ok = bool(adv) and not any(ge.can_reach(s, head, avoid_nodes=adv) for s in succs if s is not head)
-    R.ob('C12.d', ed, lp, ok, text='delimiter search: start += tlen on every path round the loop', detail='' if ok else
-         'a path round the delimiter-search loop does not advance the window: the scanner spins on that chunk')
+    if loops:
+        R.ob('C12.d', ed, lp, ok, text='delimiter search: start += tlen on every path round the loop', detail='' if ok else
+             'a path round the delimiter-search loop does not advance the window: the scanner spins on that chunk')
     # iter_markup: every iteration of its loop either leaves or consumed a section (start_next_sec re-assigned)
     lps = [n for n in walk_shallow(im.node) if isinstance(n, ast.While)]
     R.require(lps, 'iter_markup: loop not found')
